@@ -4,7 +4,9 @@ algorithm-engine package trees ON DISK and runs the REAL gate on them.
 For every job (= one descriptor chosen by TLC, spec/Gate.tla):
   write    the engine is generated from vlib.engine (conforming source text),
            then the ONE violation of the descriptor is injected by editing
-           the generated text at the named position; files go to
+           the generated text at the named position (value layout "shared":
+           all values of the package are instances of one Value class and
+           the violation is put on the instance); files go to
            <harness work dir>/ae/<base>/...  with a base package name unique to
            the descriptor (sys.modules never serves a stale package); the tree
            is removed after the job unless VERIF_GATE_KEEP=1
@@ -23,7 +25,7 @@ For every job (= one descriptor chosen by TLC, spec/Gate.tla):
 Nothing is decided here: the records go to TLC (spec/Gate_Trace.tla).
 
 usage: python -m harness.gate_h <jobs.json> <out.ndjson>
- jobs.json = {"jobs": [ {"id": n, "d": {kinds, shape, viol, pos:{k,e}}, "cli": bool} ], }
+ jobs.json = {"jobs": [ {"id": n, "d": {kinds, shape, vals, viol, pos:{k,e}}, "cli": bool} ], }
  environment: VERIF_GATE_MUTANT=<name> applies an in-memory mutant of the real
  gate (self-test of the binding; never written to /repo)
 '''
@@ -188,6 +190,10 @@ def engine_desc(d, base):
     shape = d['shape']
     algk = [k for k in ALGK if k in kinds]
     svs = lambda: [{'name': 's', 'ver': [1, 0, 0], 'vals': [{'name': 'v', 'ver': [1, 0, 0]}, {'name': 'w', 'ver': [1, 0, 0]}]}]  # noqa: E731
+    if d.get('vals', 'own') == 'shared':  # second state vector (its values are typed by rewrite_shared below)
+        one = svs
+        svs = lambda: one() + [{'name': 's2', 'ver': [1, 0, 0], 'vals': [{'name': 'v', 'ver': [1, 0, 0]}]}]  # noqa: E731
+    put_svs = svs
     algs = []
     need_up = shape != 'root' or (not algk and 'events' in kinds)
     need_down = shape in ('fb_sv', 'fb_val')
@@ -205,6 +211,7 @@ def engine_desc(d, base):
         if shape == 'chain2':
             algs.append({'name': A2[k], 'kind': k, 'ver': [1, 0, 0], 'svs': svs(), 'refs': [mkref('t0', A1[k], dep_gran(shape, k, 'a2'))], 'feedback': []})
     put = {'name': 't0', 'algs': algs}
+    svs = (lambda: put_svs()[:1])  # noqa: E731  the neighbours keep one state vector
     if 'events' in kinds and not algk:
         put['events_factory'] = True
     pkgs = [put]
@@ -314,6 +321,21 @@ MOMENTS = {
 }
 
 
+def rewrite_shared(text):
+    '''value layout "shared": every value of the package is an instance of the ONE class Val;
+    the per-value subclasses disappear'''
+    names = re.findall(r'^class (Val_\w+)\(Val\):$', text, re.M)
+    if not names:
+        raise InjectError('no value classes to share')
+    for n in names:
+        a, b = class_span(text, n)
+        text = text[:a] + text[b:]
+        text = text.replace(n + '()', 'Val()')
+    if re.search(r'\bVal_\w+', text):
+        raise InjectError('value subclass left after sharing')
+    return text
+
+
 def materialise(d, base):
     '''returns {relative path: text} with the violation of d injected'''
     desc = engine_desc(d, base)
@@ -332,6 +354,9 @@ def materialise(d, base):
             f'        dawgie.schedule({base}.up.task, {base}.up.bot.Alg_u(), dow=1, time=datetime.time(1, 2, 3)),\n    ]',
             'events-only',
         )
+    shared = d.get('vals', 'own') == 'shared'
+    if shared:
+        srcs[bot] = rewrite_shared(srcs[bot])
     viol = d['viol']
     if viol == 'none' or viol == 'no_factory':
         return desc, srcs
@@ -339,6 +364,7 @@ def materialise(d, base):
     parts = e.split('.')
     an = (A1 if parts[0] == 'a1' else A2).get(k) if parts[0] in ('a1', 'a2') else None
     t_ini, t_bot = srcs[ini], srcs[bot]
+    svn = parts[1] if len(parts) > 2 else 's'
 
     # ---- factory level (rule_01)
     if viol == 'fac_arity':
@@ -400,28 +426,34 @@ def materialise(d, base):
         t_bot = in_class(t_bot, f'SV_{an}_s', lambda b: sub1(b, "return 's'", "return 's.x'", viol))
     elif viol == 'sv_empty':
         t_bot = in_class(t_bot, f'SV_{an}_s', lambda b: re.sub(r"^        self\['\w+'\] = .*\n", '', b, flags=re.M))
+    # ---- value level, one shared class: the violation is a property of the INSTANCE
+    elif shared and viol in ('val_unpicklable', 'val_ver'):
+        vn = parts[2]
+        extra = 'fn = lambda: None' if viol == 'val_unpicklable' else '_version_ = (1, 0, 0)'
+        line = f"        self[{vn!r}] = Val()\n"
+        t_bot = in_class(t_bot, f'SV_{an}_{svn}', lambda b: sub1(b, line, line + f"        self[{vn!r}].{extra}\n", viol))
     # ---- value level
     elif viol == 'val_base':
         vn = parts[2]
         t_bot = add_helpers(t_bot)
-        t_bot = in_class(t_bot, f'Val_{an}_s_{vn}', lambda b: b.replace('(Val)', '(_PlainVal)').replace('Val.__init__', '_PlainVal.__init__'))
+        t_bot = in_class(t_bot, f'Val_{an}_{svn}_{vn}', lambda b: b.replace('(Val)', '(_PlainVal)').replace('Val.__init__', '_PlainVal.__init__'))
     elif viol == 'val_nofeatures':
         vn = parts[2]
         t_bot = add_helpers(t_bot)
-        t_bot = in_class(t_bot, f'Val_{an}_s_{vn}', lambda b: b.replace('(Val)', '(_ValNoFeatures)').replace('Val.__init__', '_ValNoFeatures.__init__'))
+        t_bot = in_class(t_bot, f'Val_{an}_{svn}_{vn}', lambda b: b.replace('(Val)', '(_ValNoFeatures)').replace('Val.__init__', '_ValNoFeatures.__init__'))
     elif viol == 'val_ver':
         vn = parts[2]
-        t_bot = in_class(t_bot, f'Val_{an}_s_{vn}', lambda b: b.rstrip('\n') + '\n        self._version_ = (1, 0, 0)\n\n')
+        t_bot = in_class(t_bot, f'Val_{an}_{svn}_{vn}', lambda b: b.rstrip('\n') + '\n        self._version_ = (1, 0, 0)\n\n')
     elif viol == 'val_unpicklable':
         vn = parts[2]
-        t_bot = in_class(t_bot, f'Val_{an}_s_{vn}', lambda b: b.rstrip('\n') + '\n        self.fn = lambda: None\n\n')
+        t_bot = in_class(t_bot, f'Val_{an}_{svn}_{vn}', lambda b: b.rstrip('\n') + '\n        self.fn = lambda: None\n\n')
     elif viol == 'val_nodefault':
         vn = parts[2]
-        t_bot = in_class(t_bot, f'Val_{an}_s_{vn}', lambda b: sub1(b, 'def __init__(self, content=None):', 'def __init__(self, content):', viol))
-        t_bot = in_class(t_bot, f'SV_{an}_s', lambda b: sub1(b, f'Val_{an}_s_{vn}()', f'Val_{an}_s_{vn}(None)', viol))
+        t_bot = in_class(t_bot, f'Val_{an}_{svn}_{vn}', lambda b: sub1(b, 'def __init__(self, content=None):', 'def __init__(self, content):', viol))
+        t_bot = in_class(t_bot, f'SV_{an}_{svn}', lambda b: sub1(b, f'Val_{an}_{svn}_{vn}()', f'Val_{an}_{svn}_{vn}(None)', viol))
     elif viol == 'val_dot':
         vn = parts[2]
-        t_bot = in_class(t_bot, f'SV_{an}_s', lambda b: sub1(b, f"self[{vn!r}]", f"self[{vn + '.x'!r}]", viol))
+        t_bot = in_class(t_bot, f'SV_{an}_{svn}', lambda b: sub1(b, f"self[{vn!r}]", f"self[{vn + '.x'!r}]", viol))
     # ---- reference level
     elif VCLASS.get(viol) == 'ref':
         meth = DEPM[k] if parts[1] == 'dep' else 'feedback'
@@ -600,6 +632,7 @@ def sched(base, aedir):
 
 def run_job(job, root):
     d = job['d']
+    d.setdefault('vals', 'own')
     base = f'g{job["id"]}'
     put = base + '.t0'
     aedir = os.path.join(root, base)
